@@ -6,23 +6,23 @@ def chk(id, category, text, note, technique, design_ref):
     CHECKS[id] = dict(category=category, text=text, note=note, technique=technique, design_ref=design_ref)
 
 chk("C07", "model_checking",
-    "Deviation-bounded exhaustive exploration of the real record reader: every input up to length 6 (thorough 8) over a per-RS alphabet, delivered in every one of its 2^(n-1) chunkings with both EOF styles, plus an empty read and a read error at every position, single split points of longer inputs and separators straddling the 64 KiB scanner buffer; each execution is compared with an all-at-once specification splitter, the reconstruction equations and the unchunked delivery.",
+    "Deviation-bounded exhaustive exploration of the real record reader: every input up to length 6 (thorough 8) over a per-RS alphabet, delivered in every one of its 2^(n-1) chunkings with both EOF styles, plus an empty read and a read error at every position, single split points of longer inputs and separators straddling the 64 KiB scanner buffer; each execution is compared with an all-at-once specification splitter, the reconstruction equations and the unchunked delivery. Also: cmd | getline / cmd | getline var on a command's output pipe delivered in every chunking (vexec seam), and RS assigned by the program in mid-input (12 old/new RS pairs x every chunking, differential oracle).",
     "bufio.Scanner's behaviour depends only on the (n,err) sequence of Read results; Go regexp as a leaf of the spec splitter; RS settings and alphabets listed in DESIGN.md §5 C07.",
     "exhaustive enumeration of environment answers (read chunkings) on the real code against a reference splitter",
     "DESIGN.md §5 C07")
 
 chk("C01", "model_checking",
-    "Bounded-exhaustive enumeration of a feature-product program grammar (every lvalue kind x assignment/op=/++/-- x rhs x statement/expression form x scope; every comparison over 14 operand types x 11 condition constructs; concatenation chains in every grouping; user-call shapes; builtins; loop nests with break/continue at every placement; pattern/getline/IO forms; thorough: all ordered pairs of 50 statements), each program run on the real compiler+VM and on an independent tree-walking reference evaluator (stdout, files written, exit status, error outcome must agree), plus metamorphic groups of equivalent spellings that must behave identically.",
+    "Bounded-exhaustive enumeration of a feature-product program grammar (every lvalue kind x assignment/op=/++/-- x rhs x statement/expression form x scope; every comparison over 14 operand types x 11 condition constructs; concatenation chains in every grouping; user-call shapes; builtins; loop nests with break/continue at every placement; pattern/getline/IO forms; thorough: all ordered pairs of 50 statements), each program run on the real compiler+VM and on an independent tree-walking reference evaluator (stdout, files written, exit status, error outcome must agree), plus metamorphic groups of equivalent spellings that must behave identically. Also: values of !, && and || in 8 value contexts (grouped with their ?: spelling), cross-record and cache-overflow programs, and a long-run family (1300 records: next/nextfile/exit/return/getline/close/delete in functions and loops).",
     "Reference evaluator shares only lexer+parser with the implementation and is validated on every run against the repository's own test table (disagreement = harness error). Defects needing more than the stated program sizes are out of reach.",
     "complete enumeration of a program grammar fragment on the real code, differential against a reference model + metamorphic equivalence",
     "DESIGN.md §5 C01")
 chk("C09", "model_checking",
-    "Complete product of conversions x all 32 flag subsets x widths x precisions (literal and *) x 64 argument values through sprintf and printf, byte and character mode, compared with the C library's snprintf (helper process) on arguments converted the AWK way by the harness; plus pairs of conversions, %%, too-few-arguments and unknown-conversion error cases for every byte, and print under 12 OFMT values.",
+    "Complete product of conversions x all 32 flag subsets x widths x precisions (literal and *) x 64 argument values through sprintf and printf, byte and character mode, compared with the C library's snprintf (helper process) on arguments converted the AWK way by the harness; plus pairs of conversions, %%, too-few-arguments and unknown-conversion error cases for every byte, and print under 12 OFMT values. Also: every format used twice in one interpreter and after a different format (format cache), argument-count error required on reuse.",
     "glibc snprintf is the oracle; combinations the C standard leaves undefined are no-crash only (listed in the evidence assumptions).",
     "complete enumeration of format specifications x argument values against the C library",
     "DESIGN.md §5 C09")
 chk("C17", "model_checking",
-    "Signatures synthesised with reflect.FuncOf/MakeFunc: every documented kind in every parameter position (<=3, thorough 4), variadic on/off, all result shapes, wide (6-9 params), defined types, invalid shapes, keyword names, several invalid at once; each called with every argument count x 81 AWK values; received Go values, results, error propagation, set-up rejection and parse-time arity errors compared with an independent conversion table; map iteration orders of Funcs driven through the permutation hook.",
+    "Signatures synthesised with reflect.FuncOf/MakeFunc: every documented kind in every parameter position (<=3, thorough 4), variadic on/off, all result shapes, wide (6-9 params), defined types, invalid shapes, keyword names, several invalid at once; each called with every argument count x 81 AWK values; received Go values, results, error propagation, set-up rejection and parse-time arity errors compared with an independent conversion table; map iteration orders of Funcs driven through the permutation hook. OFMT differs from CONVFMT in every run (number to string parameter conversion uses CONVFMT).",
     "Out-of-range float->integer conversions are no-panic only; conversion table written from the Config.Funcs documentation.",
     "complete enumeration of Go function signatures x argument counts x values on the real code against a conversion table",
     "DESIGN.md §5 C17")
@@ -33,12 +33,12 @@ chk("C02", "model_checking",
     "complete enumeration of hostile-value/config products on the real code + explicit-state exploration of the bytecode control-flow automaton",
     "DESIGN.md §5 C02, Appendix A")
 chk("C03", "model_checking",
-    "Every sequence of <=4 (thorough 5) atoms over a 41-atom alphabet hitting every lexer branch, every prefix / single-byte deletion / single-byte substitution (9 bytes) of every source in the repository's corpus, and nesting towers up to 32 KiB: ParseProgram must return (no panic), an error position must lie inside the source, every token position reported by the real lexer (driven through every Scan/ScanRegex continuation) must equal the position computed by an independent reference lexer and offset map, and the real CLI binary must show the offending line without a Go panic for every distinct error class.",
+    "Every sequence of <=4 (thorough 5) atoms over a 41-atom alphabet hitting every lexer branch, every prefix / single-byte deletion / single-byte substitution (9 bytes) of every source in the repository's corpus, and nesting towers up to 32 KiB: ParseProgram must return (no panic), an error position must lie inside the source, every token position reported by the real lexer (driven through every Scan/ScanRegex continuation) must equal the position computed by an independent reference lexer and offset map, and the real CLI binary must show the offending line without a Go panic for every distinct error class. Also: token sequences over a 36-token parser-oriented alphabet (all of length <=4, length 5 [6] starting with a statement keyword) as the body of BEGIN { } and at top level; the CLI must name the file and a line of it in every parse error.",
     "Independent 120-line reference lexer; CLI observed once per (message kind x position class), at most 2000 process runs.",
     "complete enumeration of source texts over a token-atom alphabet and of single-edit mutations of the corpus, against a reference lexer",
     "DESIGN.md §5 C03")
 chk("C04", "model_checking",
-    "All expression trees with <=3 operator nodes over all 34 operators of the POSIX table (thorough: plus all 4-operator trees over one representative per level) with position-dependent leaves, in 5-11 contexts (statement, print argument, pattern, condition, redirected print, subscript, call argument, ...), each printed fully parenthesised, table-minimal, and in four permissive spellings; both texts are parsed by goawk and the resulting tree (vexp.CanonTree) must equal the generator's own tree; negative expectations for non-associative chains, > in print and | getline.",
+    "All expression trees with <=3 operator nodes over all 34 operators of the POSIX table (thorough: plus all 4-operator trees over one representative per level) with position-dependent leaves, in 5-11 contexts (statement, print argument, pattern, condition, redirected print, subscript, call argument, ...), each printed fully parenthesised, table-minimal, and in four permissive spellings; both texts are parsed by goawk and the resulting tree (vexp.CanonTree) must equal the generator's own tree; negative expectations for non-associative chains, > in print and | getline. Also: every binary operator after 6 getline forms (cmd | getline [lvalue], getline [lvalue] < file) in 5 contexts, expected tree = parse of the explicitly parenthesised spelling.",
     "The generator owns the expected tree; purely lexical ambiguities (a right operand of concatenation starting with + - ++ --) are always parenthesised.",
     "complete enumeration of expression trees up to a size bound; parse result compared with the generator's tree",
     "DESIGN.md §5 C04")
@@ -48,38 +48,38 @@ chk("C05", "model_checking",
     "complete enumeration of strings/numbers/pairs over small alphabets against a reference value model",
     "DESIGN.md §5 C05, Appendix B")
 chk("C10", "model_checking",
-    "substr/length/index on every string of length <=3 (thorough 4) over {a,b,e-acute,0xff} x 44 positions x 45 lengths (fractions, negatives, 2^31, 2^53, 2^63, 2^64, 1e30, 1e308, +-inf, nan) in byte and character mode; split with 14 single-character separators; match/sub/gsub for every regex of <=3 atoms over 13 atoms x every subject x 116 replacement strings; int() on 78 arguments up to MaxFloat64 - each compared with the property's defining equations evaluated by the harness and an own leftmost-longest matcher (Go regexp only cross-checked).",
+    "substr/length/index on every string of length <=3 (thorough 4) over {a,b,e-acute,0xff} x 44 positions x 45 lengths (fractions, negatives, 2^31, 2^53, 2^63, 2^64, 1e30, 1e308, +-inf, nan) in byte and character mode; split with 14 single-character separators; match/sub/gsub for every regex of <=3 atoms over 13 atoms x every subject x 116 replacement strings; int() on 78 arguments up to MaxFloat64 - each compared with the property's defining equations evaluated by the harness and an own leftmost-longest matcher (Go regexp only cross-checked). Also: every top-level alternation X|Y of sequences of 1..2 atoms over {a b ^ $ a*}.",
     "NaN arguments are no-crash only; index(s, \"\") and backslashes not followed by & in replacements accept both common readings.",
     "complete enumeration of subjects x patterns x replacements x numeric arguments against the defining equations",
     "DESIGN.md §5 C10")
 chk("C13", "model_checking",
-    "X: every sequence of <=3 (thorough 4) operations over 17 kinds (print/printf to stdout, >, >>, two commands, close, fflush, system, cmd|getline, getline<file, exit statuses, exit, run-time error) on the real interpreter over virtual child processes against a destination model (file bytes, close() results, per-source stdout projections, order constraints), with unbuffered and buffered Config.Output; S: for sequences with a child sharing stdout, every schedule of program, child and copy threads within a deviation bound under a cooperative scheduler in which each Write to Config.Output is a two-event critical section (overlap = violation; deadlock = violation); D: a write failure injected at every byte offset of standard output for 11 output paths x {unbuffered, bufio}, plus the CLI with stdout=/dev/full.",
+    "X: every sequence of <=3 (thorough 4) operations over 17 kinds (print/printf to stdout, >, >>, two commands, close, fflush, system, cmd|getline, getline<file, exit statuses, exit, run-time error) on the real interpreter over virtual child processes against a destination model (file bytes, close() results, per-source stdout projections, order constraints), with unbuffered and buffered Config.Output; S: for sequences with a child sharing stdout, every schedule of program, child and copy threads within a deviation bound under a cooperative scheduler in which each Write to Config.Output is a two-event critical section (overlap = violation; deadlock = violation); D: a write failure injected at every byte offset of standard output for 11 output paths x {unbuffered, bufio}, plus the CLI with stdout=/dev/full. Also: a named stream that fails every flush (/dev/full) among files and commands: the others must still be flushed before system() and fflush() must report -1.",
     "os/exec and child processes are replaced by the vexec model (trusted to reflect os/exec's documented behaviour: copy goroutine for non-*os.File Stdout, Wait waits for copying); kernel pipe buffering is not modelled.",
     "explicit enumeration of operation sequences against a model + stateless schedule exploration (deviation-bounded) + exhaustive fault-offset enumeration",
     "DESIGN.md §5 C13, Appendix D")
 chk("C14", "model_checking",
-    "Explicit-state breadth-first search over histories of Execute/ExecuteContext/ResetVars/ResetRand on one Interpreter (30 operations in quick, 39 in thorough: plain/CSV/TSV/header runs, Vars and Args, run-time errors in function/loop/for-in/rule, exit in BEGIN/rule/END, cancellation at several VM steps, streams left open, sandbox flags, rejected configurations) to depth 2 (thorough 3), states de-duplicated by a canonical dump of the interpreter's persistent fields; in every state two oracles over 9 probe configurations: ResetVars+ResetRand+Execute(probe) equals ExecProgram on a fresh interpreter, and without ResetVars everything except variables/arrays equals fresh.",
+    "Explicit-state breadth-first search over histories of Execute/ExecuteContext/ResetVars/ResetRand on one Interpreter (30 operations in quick, 39 in thorough: plain/CSV/TSV/header runs, Vars and Args, run-time errors in function/loop/for-in/rule, exit in BEGIN/rule/END, cancellation at several VM steps, streams left open, sandbox flags, rejected configurations) to depth 2 (thorough 3), states de-duplicated by a canonical dump of the interpreter's persistent fields; in every state two oracles over 9 probe configurations: ResetVars+ResetRand+Execute(probe) equals ExecProgram on a fresh interpreter, and without ResetVars everything except variables/arrays equals fresh. The state dump includes the regex and format caches; histories include runs aborted while a range pattern is open, runs that leave command streams open and runs whose context is cancelled after normal completion; the probe runs system(), cmd | getline, print | cmd (in-process command stand-in), a %c format and dynamic regexes shared with the history.",
     "State dump (VerifDump) is over-fine by design; successor = replay of the history on a fresh Interpreter plus one operation.",
     "explicit-state BFS over operation histories of the real object with canonical state hashing, differential against a fresh instance",
     "DESIGN.md §5 C14")
 chk("C15", "model_checking",
-    "For 14 programs (tight loops, nested calls, recursion, for-in, main-loop rules, END loop, pending output, getline loop, error/exit after loops) the context is cancelled before VM step k for every k<=300, every 7th k<=3000 and every 61st to the end (thorough: every k<=3000, every 7th beyond), with unbuffered and buffered output, plus pre-cancelled and expired contexts: at most 1500 further steps, the context's error (or normal completion within those steps), printed output delivered and a prefix of the uncancelled output; for 6 programs waiting on child processes every placement of the cancel among the scheduling points of the virtual process world within a deviation bound (no deadlock, stop within the step limit); never-cancelled ExecuteContext equals Execute on ~1500 programs.",
+    "For 14 programs (tight loops, nested calls, recursion, for-in, main-loop rules, END loop, pending output, getline loop, error/exit after loops) the context is cancelled before VM step k for every k<=300, every 7th k<=3000 and every 61st to the end (thorough: every k<=3000, every 7th beyond), with unbuffered and buffered output, plus pre-cancelled and expired contexts: at most 1500 further steps, the context's error (or normal completion within those steps), printed output delivered and a prefix of the uncancelled output; for 6 programs waiting on child processes every placement of the cancel among the scheduling points of the virtual process world within a deviation bound (no deadlock, stop within the step limit); never-cancelled ExecuteContext equals Execute on ~1500 programs. After a cancellation a run that ends with the program's own error is a violation (context error preferred); programs with errors in BEGIN/function/rule/END/for-in; children whose descendant keeps the output pipe open (WaitDelay modelled); never-cancelled equivalence also for 9 programs with child processes.",
     "Alarm threshold 1500 steps for 'about a thousand' (the code polls every 1000); child processes are the vexec model.",
     "exhaustive enumeration of cancellation points (VM steps, scheduling points) on the real interpreter",
     "DESIGN.md §5 C15")
 chk("C19", "model_checking",
-    "(1) Every map-range site executed by resolver/compiler during ParseProgram is a choice point over a permutation menu; for programs with 2-3 independent type errors, call-graph shapes, native+AWK function mixes and the repository's own sources, all parses with <=1 (thorough 2) non-sorted site executions must give the same verdict, message, position, compiled code, constants, function table, printed source and disassembly as the sorted-order parse; (2) the Program's fingerprint is unchanged by two rounds of executions (including failing ones) of ~1500 programs and the second round repeats the first; (3) 2 and 3 interpreters sharing one Program run as cooperative threads yielding at every VM instruction: all schedules within a deviation bound give each interpreter its single-run result.",
+    "(1) Every map-range site executed by resolver/compiler during ParseProgram is a choice point over a permutation menu; for programs with 2-3 independent type errors, call-graph shapes, native+AWK function mixes and the repository's own sources, all parses with <=1 (thorough 2) non-sorted site executions must give the same verdict, message, position, compiled code, constants, function table, printed source and disassembly as the sorted-order parse; (2) the Program's fingerprint is unchanged by two rounds of executions (including failing ones) of ~1500 programs and the second round repeats the first; (3) 2 and 3 interpreters sharing one Program run as cooperative threads yielding at every VM instruction: all schedules within a deviation bound give each interpreter its single-run result. The Program comparison is a reflective deep dump (unexported fields, spare capacity, regexes); package-level variables of all goawk packages are dumped around executions; a supplementary free-running -race pass (harness/cmd/vrace) runs the sharing programs with real goroutines.",
     "Map order is owned via the overlay's rewrite of every map range; data races proper (memory model) are outside an exhaustive cooperative exploration.",
     "deviation-bounded exploration of map iteration orders and of instruction-level interleavings on the real code",
     "DESIGN.md §5 C19")
 chk("C20", "model_checking",
-    "C04's tree space in five spellings and all contexts, every chain of <=3 (thorough 4) prefix operators x operands x postfix x contexts, every byte value and escape class in strings (all strings of <=3 (4) symbols over a 20-symbol alphabet), all regexes of <=3 (4) pieces over 13 pieces, 51 numeric literals, ~230 simple statements, compound forms with all body combinations, containers and item sequences: parse, print with Program.String, re-parse must succeed, the two trees (vexp.CanonTree, numbers at 6 significant digits) must be equal, and printing again must give the same text.",
+    "C04's tree space in five spellings and all contexts, every chain of <=3 (thorough 4) prefix operators x operands x postfix x contexts, every byte value and escape class in strings (all strings of <=3 (4) symbols over a 20-symbol alphabet), all regexes of <=3 (4) pieces over 13 pieces, 51 numeric literals, ~230 simple statements, compound forms with all body combinations, containers and item sequences: parse, print with Program.String, re-parse must succeed, the two trees (vexp.CanonTree, numbers at 6 significant digits) must be equal, and printing again must give the same text. Also: parenthesised print/printf lists (24 expressions alone, in pairs and triples x 4 redirections).",
     "Rejected sources are skipped; grouping nodes and the empty-else distinction are ignored.",
     "complete enumeration of programs over a grammar fragment; print/re-parse round trip compared structurally",
     "DESIGN.md §5 C20")
 
 chk("C11", "model_checking",
-    "Programs generated from all combinations of BEGIN (7 forms incl. getline and ARGV/ARGC edits), one or two rules with every pattern form (plain, expression, regex, ranges incl. same-record and never-closing, field-value ranges) and every action of <=2 operations from {getline, getline v, getline < f, getline v < f, next, nextfile, exit k} (plain, inside a function, inside a loop), END (trace, exit, getline) x every operand list of <=3 (thorough 4) over {fileA, fileB, empty file, -, \"\", v=1, FS=,, missing file}; every trace line prints NR, FNR, FILENAME, NF, $0 and the getline variable; each run is compared with the reference tree evaluator given the same files, and ~25 direct invariants from the statement are evaluated on the trace by the check itself.",
+    "Programs generated from all combinations of BEGIN (7 forms incl. getline and ARGV/ARGC edits), one or two rules with every pattern form (plain, expression, regex, ranges incl. same-record and never-closing, field-value ranges) and every action of <=2 operations from {getline, getline v, getline < f, getline v < f, next, nextfile, exit k} (plain, inside a function, inside a loop), END (trace, exit, getline) x every operand list of <=3 (thorough 4) over {fileA, fileB, empty file, -, \"\", v=1, FS=,, missing file}; every trace line prints NR, FNR, FILENAME, NF, $0 and the getline variable; each run is compared with the reference tree evaluator given the same files, and ~25 direct invariants from the statement are evaluated on the trace by the check itself. Also: a long-run family (1300 records; next/nextfile/exit/getline/ranges inside functions and loops) against the reference evaluator.",
     "Reference evaluator as in C01; FILENAME in BEGIN/for stdin is not prescribed (normalised); plain getline reaching a missing operand is outside the model.",
     "complete enumeration of programs x operand lists against a reference evaluator plus trace invariants",
     "DESIGN.md §5 C11")
@@ -90,7 +90,7 @@ chk("C06", "model_checking",
     "explicit-state search over operation histories of the real record state against a reference record model",
     "DESIGN.md §5 C06")
 chk("C08", "model_checking",
-    "Every input string of length <=6 (thorough 7) over a per-configuration alphabet {a, sep, quote, LF, CR, #, space, multi-byte char} in 11 CSV/TSV configurations (separator , | e-acute tab; comment none/#/e-acute; header on/off; via Config and via INPUTMODE), with and without BOM, delivered in every chunking x 2 EOF styles x 2 reading paths: fields/NF against encoding/csv (lenient quotes) on the BOM-free bytes, $0 against the record's byte extent, NR, header names/FIELDS/@name per file, chunking independence; $0=s and split(s,a) re-parse; header mode over pairs of files; records at the 64 KiB buffer edge; round trip of every list of <=3 values of length <=2 (3) through print and $0 rebuild in CSV/TSV output mode with 4 separators.",
+    "Every input string of length <=6 (thorough 7) over a per-configuration alphabet {a, sep, quote, LF, CR, #, space, multi-byte char} in 11 CSV/TSV configurations (separator , | e-acute tab; comment none/#/e-acute; header on/off; via Config and via INPUTMODE), with and without BOM, delivered in every chunking x 2 EOF styles x 2 reading paths: fields/NF against encoding/csv (lenient quotes) on the BOM-free bytes, $0 against the record's byte extent, NR, header names/FIELDS/@name per file, chunking independence; $0=s and split(s,a) re-parse; header mode over pairs of files; records at the 64 KiB buffer edge; round trip of every list of <=3 values of length <=2 (3) through print and $0 rebuild in CSV/TSV output mode with 4 separators. Also: plans with NUL and an invalid UTF-8 byte (in-band sentinels).",
     "encoding/csv is the field oracle; lone CR before EOF and CRLF inside quoted fields accepted in either form as the statement leaves them open.",
     "complete enumeration of inputs x chunkings x configurations against encoding/csv, plus write/read round trips",
     "DESIGN.md §5 C08")
@@ -101,7 +101,7 @@ chk("C16", "model_checking",
     "DESIGN.md §5 C16")
 
 chk("C12", "model_checking",
-    "25 I/O forms (print >, >>, printf >, print |, cmd | getline [v], system, getline [v] < file incl. missing files, operand files incl. plain getline reaching an operand, close+reopen sequences, /dev/stdout, /dev/stderr, -) x 5 ways of computing the name (constant, concatenation, input field, ARGV, user function); every sequence of <=2 forms (thorough: also all 3-step sequences with constant names) x the 8 flag combinations x Config.OpenFile {nil, recording wrapper}, run on the real interpreter with recorded effects: every process start (os/exec shim), every raw os file call made by package interp (redirected through recording wrappers), wrapper calls, directory contents before/after; allowed effects are a function of the flags, a denied attempt must end the run with an error and nothing after it may run, stdin and - stay available, with a wrapper configured there are no raw opens; an alphabet-gap guard lists every syntactic os/exec site of package interp and reports sites never executed.",
+    "25 I/O forms (print >, >>, printf >, print |, cmd | getline [v], system, getline [v] < file incl. missing files, operand files incl. plain getline reaching an operand, close+reopen sequences, /dev/stdout, /dev/stderr, -) x 5 ways of computing the name (constant, concatenation, input field, ARGV, user function); every sequence of <=2 forms (thorough: also all 3-step sequences with constant names) x the 8 flag combinations x Config.OpenFile {nil, recording wrapper}, run on the real interpreter with recorded effects: every process start (os/exec shim), every raw os file call made by package interp (redirected through recording wrappers), wrapper calls, directory contents before/after; allowed effects are a function of the flags, a denied attempt must end the run with an error and nothing after it may run, stdin and - stay available, with a wrapper configured there are no raw opens; an alphabet-gap guard lists every syntactic os/exec site of package interp and reports sites never executed. Every single-step case is repeated as the second Execute of an Interpreter whose first run had the opposite restrictions (flags are per run).",
     "interp reaches the file system and processes only through the redirected os functions and os/exec (other mechanisms such as syscall are outside the hook); real /bin/sh children with echo/read only.",
     "complete enumeration of I/O form sequences x flag configurations on the real interpreter with recorded effects",
     "DESIGN.md §5 C12")
